@@ -175,6 +175,7 @@ func main() {
 		hfs = append(hfs, hf)
 	}
 	sym.DepWork = work
+	allHarnessFiles = hfs
 	l, err := sym.Load(*repo, hfs, nil)
 	if err != nil {
 		inconclusive("load: " + err.Error())
@@ -548,9 +549,16 @@ func mkCase(prop, tier string, e *sym.EntrySpec, p *sym.Program, v *sym.Violatio
 	return rc
 }
 
+var allHarnessFiles []*sym.HarnessFile
+
 func nativeReplayable(hf *sym.HarnessFile) bool {
 	if len(hf.Replaces) > 0 {
 		return false
+	}
+	for _, o := range allHarnessFiles {
+		if o.PkgPath == hf.PkgPath && o != hf && len(o.Entries) == 0 && (strings.Contains(string(o.Src), "zzsymUF(") || len(o.Replaces) > 0) {
+			return false // shares UF-based / replacing helpers
+		}
 	}
 	if strings.Contains(string(hf.Src), "zzsymUF(") {
 		return false
@@ -573,6 +581,11 @@ func interpReplay(l *sym.Loaded, e *sym.EntrySpec, p *sym.Program, rc replayCase
 	for _, v := range r.Stats.Violations {
 		if v.Label == rc.Label {
 			return true
+		}
+	}
+	for _, e := range r.Stats.EngineErrors {
+		if strings.Contains(e, "zzsymUF in concrete mode") {
+			return true // reaches an uninterpreted function through a helper: no concrete re-execution possible
 		}
 	}
 	return false
@@ -815,13 +828,13 @@ func nativeReplay(repo, work string, hfs []*sym.HarnessFile, cases []replayCase)
 					entries = append(entries, e.Func)
 				}
 			}
-			// helper files (no entries) living in other packages are part of every native build
+			// harness files living in other packages (helpers, fakes) are part of every native build
 			helperRT := map[string]bool{}
 			for _, hf := range hfs {
-				if hf.PkgPath == pkg || len(hf.Entries) > 0 {
+				if hf.PkgPath == pkg {
 					continue
 				}
-				real := filepath.Join(dir, "helper_"+filepath.Base(hf.Virtual))
+				real := filepath.Join(dir, "helper_"+sanitizeName(hf.PkgPath)+"_"+filepath.Base(hf.Virtual))
 				os.WriteFile(real, hf.Src, 0o644)
 				overlay[hf.Virtual] = real
 				hdir := filepath.Dir(hf.Virtual)
